@@ -1,28 +1,368 @@
-//! World `access` (bootstrap version: abi-dump only).
-use multiversx_sc::abi::{ContractAbi, EndpointMutabilityAbi};
-use multiversx_sc::contract_base::ContractAbiProvider;
+//! World `access`: the exhaustive authorisation / pause matrix of property C19 on the REAL
+//! contracts pair, router, farm, farm-with-locked-rewards, farm-staking, energy-factory,
+//! fees-collector, permissions-hub, token-unstake, lkmex-transfer.
+//!
+//! Shape of this world (different from the random-history worlds): every op line is one
+//! matrix cell `cell <contract> <endpoint[@variant]> <role> <state>`; the harness restores a
+//! deterministic, fully deployed "universe" for (contract, variant, state), calls the real
+//! endpoint **by name through the contract's generated dispatcher** (so `#[only_owner]`,
+//! `#[payable]` and argument decoding are exercised exactly as on chain) with a minimal
+//! valid payment/arguments as the given caller role, records ok/err, and evaluates C19's
+//! rules directly.  The Lean driver (`drv_access`) answers the same cell from the
+//! hand-written access table (lean/MxModel/Core/Access.lean).
+//!
+//! Sub-commands: `abi-dump` (writes lean/MxModel/Gen/Endpoints.lean from the contracts' ABI
+//! providers), `gen` (abi-dump, then the whole matrix), `replay --file f.ops`.
+//!
+//! The VM is the same `multiversx-chain-vm` the repository's tests run on; it is driven
+//! through `ScenarioVMRunner` (public API of multiversx-sc-scenario) instead of
+//! `BlockchainStateWrapper` because (a) endpoints must be dispatched by name, (b) the whole
+//! chain state must be snapshotted / compared (raw storage of every account).
 
-fn abis() -> Vec<(&'static str, ContractAbi)> {
-    vec![
-        ("pair", pair::AbiProvider::abi()),
-        ("router", router::AbiProvider::abi()),
-        ("farm", farm::AbiProvider::abi()),
-        ("fwlr", farm_with_locked_rewards::AbiProvider::abi()),
-        ("staking", farm_staking::AbiProvider::abi()),
-        ("energy", energy_factory::AbiProvider::abi()),
-        ("fees", fees_collector::AbiProvider::abi()),
-        ("hub", permissions_hub::AbiProvider::abi()),
-        ("unstake", token_unstake::AbiProvider::abi()),
-        ("lkmex", lkmex_transfer::AbiProvider::abi()),
-    ]
+#![allow(clippy::too_many_arguments, clippy::type_complexity)]
+
+use mxharness::*;
+use num_bigint::BigUint;
+use num_traits::Zero;
+use std::collections::{BTreeMap, HashMap};
+
+use multiversx_sc::abi::{ContractAbi, EndpointAbi, EndpointMutabilityAbi};
+use multiversx_sc::contract_base::{CallableContract, ContractAbiProvider, ContractBase};
+use multiversx_sc::types::{Address, ManagedAddress, MultiValueEncoded};
+use multiversx_sc_scenario::debug_executor::{contract_instance_wrapped_execution, ContractContainer};
+use multiversx_sc_scenario::multiversx_chain_vm::{
+    tx_execution::execute_current_tx_context_input,
+    tx_mock::{TxFunctionName, TxInput, TxResult, TxTokenTransfer},
+    types::VMAddress,
+    world_mock::{AccountData, BlockchainState, EsdtInstanceMetadata},
+};
+use multiversx_sc_scenario::scenario::run_vm::ScenarioVMRunner;
+use multiversx_sc_scenario::{managed_address, managed_biguint, managed_token_id, DebugApi};
+
+// =======================================================================================
+// VM wrapper
+// =======================================================================================
+pub struct Vm {
+    r: ScenarioVMRunner,
+    next_user: u64,
+    next_sc: u64,
+}
+
+fn vma(a: &Address) -> VMAddress {
+    VMAddress::from_slice(a.as_bytes())
+}
+
+pub fn esdt(token: &[u8], nonce: u64, value: &BigUint) -> TxTokenTransfer {
+    TxTokenTransfer { token_identifier: token.to_vec(), nonce, value: value.clone() }
+}
+
+impl Vm {
+    pub fn new() -> Self {
+        Vm { r: ScenarioVMRunner::new(), next_user: 0, next_sc: 0 }
+    }
+    pub fn state(&self) -> &BlockchainState {
+        &self.r.blockchain_mock.state
+    }
+    pub fn state_mut(&mut self) -> &mut BlockchainState {
+        &mut self.r.blockchain_mock.state
+    }
+    pub fn snapshot(&self) -> BlockchainState {
+        self.state().clone()
+    }
+    pub fn restore(&mut self, s: &BlockchainState) {
+        *self.state_mut() = s.clone();
+    }
+    pub fn user(&mut self) -> Address {
+        self.next_user += 1;
+        let mut b = [0xAAu8; 32];
+        b[0] = 1;
+        b[24..32].copy_from_slice(&self.next_user.to_be_bytes());
+        let a = Address::from(&b);
+        self.state_mut().accounts.insert(vma(&a), AccountData::new_empty(vma(&a)));
+        a
+    }
+    /// an account with a smart-contract address; `code` = registered contract identifier
+    pub fn sc_account(&mut self, owner: Option<&Address>, code: Option<&str>) -> Address {
+        self.next_sc += 1;
+        let mut b = [0x11u8; 32];
+        for x in b.iter_mut().take(8) {
+            *x = 0;
+        }
+        b[8] = 5;
+        b[9] = 0;
+        b[24..32].copy_from_slice(&self.next_sc.to_be_bytes());
+        let a = Address::from(&b);
+        let mut acc = AccountData::new_empty(vma(&a));
+        acc.contract_path = code.map(|c| c.as_bytes().to_vec());
+        acc.contract_owner = owner.map(vma);
+        self.state_mut().accounts.insert(vma(&a), acc);
+        a
+    }
+    pub fn register<CB: CallableContract + 'static>(&mut self, code: &str, obj: CB) {
+        let mut m = self.r.contract_map_ref.lock();
+        if !m.contains_contract(code.as_bytes()) {
+            m.register_contract(code.as_bytes().to_vec(), ContractContainer::new(Box::new(obj), None, false));
+        }
+    }
+    pub fn set_code(&mut self, a: &Address, code: &str) {
+        self.state_mut().accounts.get_mut(&vma(a)).unwrap().contract_path = Some(code.as_bytes().to_vec());
+    }
+    pub fn set_esdt(&mut self, a: &Address, token: &[u8], v: &BigUint) {
+        let acc = self.state_mut().accounts.get_mut(&vma(a)).unwrap();
+        acc.esdt.set_esdt_balance(token.to_vec(), 0, v, EsdtInstanceMetadata::default());
+    }
+    pub fn set_nft(&mut self, a: &Address, token: &[u8], nonce: u64, v: &BigUint, attrs: Vec<u8>) {
+        let acc = self.state_mut().accounts.get_mut(&vma(a)).unwrap();
+        let md = EsdtInstanceMetadata { attributes: attrs, ..Default::default() };
+        acc.esdt.set_esdt_balance(token.to_vec(), nonce, v, md);
+    }
+    pub fn set_egld(&mut self, a: &Address, v: &BigUint) {
+        self.state_mut().accounts.get_mut(&vma(a)).unwrap().egld_balance = v.clone();
+    }
+    pub fn bal(&self, a: &Address, token: &[u8], nonce: u64) -> BigUint {
+        match self.state().accounts.get(&vma(a)) {
+            Some(acc) => acc.esdt.get_esdt_balance(token, nonce),
+            None => BigUint::zero(),
+        }
+    }
+    /// all (nonce, balance) instances of `token` held by `a`
+    pub fn nfts(&self, a: &Address, token: &[u8]) -> Vec<(u64, BigUint)> {
+        let mut v = vec![];
+        if let Some(acc) = self.state().accounts.get(&vma(a)) {
+            if let Some(d) = acc.esdt.get_by_identifier(token) {
+                for (n, i) in d.instances.get_instances().iter() {
+                    if !i.balance.is_zero() {
+                        v.push((*n, i.balance.clone()));
+                    }
+                }
+            }
+        }
+        v
+    }
+    pub fn nft_attrs(&self, a: &Address, token: &[u8], nonce: u64) -> Vec<u8> {
+        self.state().accounts.get(&vma(a)).and_then(|acc| acc.esdt.get_by_identifier(token))
+            .and_then(|d| d.instances.get_by_nonce(nonce)).map(|i| i.metadata.attributes.clone()).unwrap_or_default()
+    }
+    pub fn set_roles(&mut self, a: &Address, token: &[u8], roles: &[&str]) {
+        let acc = self.state_mut().accounts.get_mut(&vma(a)).unwrap();
+        acc.esdt.set_roles(token.to_vec(), roles.iter().map(|r| r.as_bytes().to_vec()).collect());
+    }
+    /// move tokens between two accounts outside any transaction (setup only)
+    pub fn move_esdt(&mut self, from: &Address, to: &Address, token: &[u8], nonce: u64, v: &BigUint) {
+        let attrs = self.nft_attrs(from, token, nonce);
+        let have = self.bal(from, token, nonce);
+        assert!(&have >= v, "move_esdt: insufficient balance");
+        let left = &have - v;
+        let md = EsdtInstanceMetadata { attributes: attrs.clone(), ..Default::default() };
+        let facc = self.state_mut().accounts.get_mut(&vma(from)).unwrap();
+        facc.esdt.set_esdt_balance(token.to_vec(), nonce, &left, md.clone());
+        let tacc = self.state_mut().accounts.get_mut(&vma(to)).unwrap();
+        tacc.esdt.increase_balance(token.to_vec(), nonce, v, md);
+    }
+    pub fn set_epoch(&mut self, e: u64) {
+        self.state_mut().current_block_info.block_epoch = e;
+    }
+    pub fn set_nonce(&mut self, n: u64) {
+        self.state_mut().current_block_info.block_nonce = n;
+    }
+    pub fn set_round(&mut self, n: u64) {
+        self.state_mut().current_block_info.block_round = n;
+    }
+    pub fn set_timestamp(&mut self, n: u64) {
+        self.state_mut().current_block_info.block_timestamp = n;
+    }
+    fn input(from: &Address, to: &Address, func: TxFunctionName, args: Vec<Vec<u8>>, pay: &[TxTokenTransfer], egld: &BigUint) -> TxInput {
+        TxInput {
+            from: vma(from),
+            to: vma(to),
+            egld_value: egld.clone(),
+            esdt_values: pay.to_vec(),
+            func_name: func,
+            args,
+            gas_limit: 100_000_000,
+            gas_price: 0,
+            ..Default::default()
+        }
+    }
+    /// a transaction dispatched BY NAME through the contract's generated endpoint wrapper
+    pub fn call(&mut self, from: &Address, to: &Address, func: &str, args: Vec<Vec<u8>>, pay: &[TxTokenTransfer], egld: &BigUint) -> TxResult {
+        let inp = Self::input(from, to, TxFunctionName::from(func), args, pay, egld);
+        let st = &mut self.r.blockchain_mock.state;
+        st.increase_account_nonce(&inp.from);
+        self.r.blockchain_mock.vm.sc_call_with_async_and_callback(inp, st, execute_current_tx_context_input)
+    }
+    /// white-box transaction (setup, observation): `f` runs inside the contract's context
+    pub fn tx<CB, F>(&mut self, from: &Address, to: &Address, builder: fn() -> CB, pay: &[TxTokenTransfer], f: F) -> TxResult
+    where
+        CB: ContractBase<Api = DebugApi> + CallableContract + 'static,
+        F: FnOnce(CB),
+    {
+        let inp = Self::input(from, to, TxFunctionName::WHITEBOX_CALL, vec![], pay, &BigUint::zero());
+        let sc = builder();
+        let st = &mut self.r.blockchain_mock.state;
+        self.r.blockchain_mock.vm.sc_call_with_async_and_callback(inp, st, || {
+            contract_instance_wrapped_execution(false, || {
+                f(sc);
+                Ok(())
+            });
+        })
+    }
+    pub fn tx_ok<CB, F>(&mut self, from: &Address, to: &Address, builder: fn() -> CB, pay: &[TxTokenTransfer], f: F)
+    where
+        CB: ContractBase<Api = DebugApi> + CallableContract + 'static,
+        F: FnOnce(CB),
+    {
+        let r = self.tx(from, to, builder, pay, f);
+        assert!(r.result_status == 0, "setup tx failed: {} {}", r.result_status, r.result_message);
+    }
+}
+
+/// canonical rendering of the WHOLE chain state except account nonces: every account's EGLD,
+/// every ESDT instance (balance + attributes), roles, every raw storage cell.
+pub fn digest(s: &BlockchainState) -> String {
+    let mut accs: Vec<&AccountData> = s.accounts.values().collect();
+    accs.sort_by(|a, b| a.address.as_bytes().cmp(b.address.as_bytes()));
+    let mut out = String::new();
+    for a in accs {
+        out += &format!("A{} e={} o={:?} c={:?}\n", hex::encode(a.address.as_bytes()), a.egld_balance,
+            a.contract_owner.as_ref().map(|o| hex::encode(o.as_bytes())), a.contract_path.as_ref().map(|p| String::from_utf8_lossy(p).to_string()));
+        let mut toks: Vec<(&Vec<u8>, _)> = a.esdt.iter().collect();
+        toks.sort_by(|x, y| x.0.cmp(y.0));
+        for (t, d) in toks {
+            let mut roles = d.roles.get();
+            roles.sort();
+            out += &format!(" T{} ln={} r={:?}", String::from_utf8_lossy(t), d.last_nonce,
+                roles.iter().map(|r| String::from_utf8_lossy(r).to_string()).collect::<Vec<_>>());
+            for (n, i) in d.instances.get_instances().iter() {
+                if !i.balance.is_zero() {
+                    out += &format!(" {}:{}:{}", n, i.balance, hex::encode(&i.metadata.attributes));
+                }
+            }
+            out += "\n";
+        }
+        let mut keys: Vec<&Vec<u8>> = a.storage.keys().collect();
+        keys.sort();
+        for k in keys {
+            let v = &a.storage[k];
+            if !v.is_empty() {
+                out += &format!(" S{}={}\n", hex::encode(k), hex::encode(v));
+            }
+        }
+    }
+    out += &format!("B{} {} {}\n", s.current_block_info.block_epoch, s.current_block_info.block_nonce, s.current_block_info.block_round);
+    out
+}
+
+// =======================================================================================
+// argument encoding (top-level encoding of endpoint arguments, as a transaction carries them)
+// =======================================================================================
+pub fn a_u64(x: u64) -> Vec<u8> {
+    let b = x.to_be_bytes();
+    let i = b.iter().position(|v| *v != 0).unwrap_or(8);
+    b[i..].to_vec()
+}
+pub fn a_big(x: &BigUint) -> Vec<u8> {
+    if x.is_zero() { vec![] } else { x.to_bytes_be() }
+}
+pub fn a_addr(a: &Address) -> Vec<u8> {
+    a.as_bytes().to_vec()
+}
+pub fn a_bool(b: bool) -> Vec<u8> {
+    if b { vec![1] } else { vec![] }
+}
+pub fn n_bytes(b: &[u8]) -> Vec<u8> {
+    let mut v = (b.len() as u32).to_be_bytes().to_vec();
+    v.extend_from_slice(b);
+    v
+}
+pub fn n_big(x: &BigUint) -> Vec<u8> {
+    n_bytes(&a_big(x))
+}
+/// top-encoded EsdtTokenPayment struct
+pub fn a_payment(token: &[u8], nonce: u64, amount: &BigUint) -> Vec<u8> {
+    let mut v = n_bytes(token);
+    v.extend_from_slice(&nonce.to_be_bytes());
+    v.extend_from_slice(&n_big(amount));
+    v
+}
+
+// =======================================================================================
+// ABI inventory
+// =======================================================================================
+pub const CONTRACTS: [&str; 10] = ["pair", "router", "farm", "fwlr", "staking", "energy", "fees", "hub", "unstake", "lkmex"];
+
+fn abi_of(c: &str) -> ContractAbi {
+    match c {
+        "pair" => pair::AbiProvider::abi(),
+        "router" => router::AbiProvider::abi(),
+        "farm" => farm::AbiProvider::abi(),
+        "fwlr" => farm_with_locked_rewards::AbiProvider::abi(),
+        "staking" => farm_staking::AbiProvider::abi(),
+        "energy" => energy_factory::AbiProvider::abi(),
+        "fees" => fees_collector::AbiProvider::abi(),
+        "hub" => permissions_hub::AbiProvider::abi(),
+        "unstake" => token_unstake::AbiProvider::abi(),
+        "lkmex" => lkmex_transfer::AbiProvider::abi(),
+        _ => panic!("unknown contract {c}"),
+    }
+}
+
+fn is_readonly(e: &EndpointAbi) -> bool {
+    !matches!(e.mutability, EndpointMutabilityAbi::Mutable)
+}
+
+fn lean_contract(c: &str) -> &'static str {
+    match c {
+        "pair" => ".pair", "router" => ".router", "farm" => ".farm", "fwlr" => ".fwlr", "staking" => ".staking",
+        "energy" => ".energy", "fees" => ".fees", "hub" => ".hub", "unstake" => ".unstake", "lkmex" => ".lkmex",
+        _ => panic!(),
+    }
+}
+
+fn endpoints_lean() -> String {
+    let mut s = String::new();
+    s += "/-\n  GENERATED by `w_access abi-dump` from the contracts' own ABI providers\n";
+    s += "  (`<crate>::AbiProvider::abi().endpoints`).  Do not edit: it is rewritten (only when its\n";
+    s += "  content changes) on every run of the `access` world.\n";
+    s += "  Entry = (contract, endpoint name, only_owner, readonly (view), payable).\n-/\n";
+    s += "import MxModel.Core.Access\n\nnamespace Mx.Gen\nopen Mx.Access\n\n";
+    s += "def endpoints : List (Contract × String × Bool × Bool × Bool) := [\n";
+    let mut first = true;
+    for c in CONTRACTS {
+        let abi = abi_of(c);
+        for e in abi.endpoints.iter() {
+            if !first {
+                s += ",\n";
+            }
+            first = false;
+            s += &format!("  ({}, \"{}\", {}, {}, {})", lean_contract(c), e.name, e.only_owner, is_readonly(e), !e.payable_in_tokens.is_empty());
+        }
+    }
+    s += "\n]\n\nend Mx.Gen\n";
+    s
+}
+
+fn abi_dump() -> bool {
+    let path = std::path::Path::new(env!("CARGO_MANIFEST_DIR")).join("../lean/MxModel/Gen/Endpoints.lean");
+    let new = endpoints_lean();
+    let old = std::fs::read_to_string(&path).unwrap_or_default();
+    if old != new {
+        std::fs::create_dir_all(path.parent().unwrap()).unwrap();
+        std::fs::write(&path, new).unwrap();
+        true
+    } else {
+        false
+    }
 }
 
 fn main() {
-    for (c, abi) in abis() {
-        for e in abi.endpoints.iter() {
-            let ro = !matches!(e.mutability, EndpointMutabilityAbi::Mutable);
-            println!("{c} {} owner={} ro={} payable={:?} inputs={:?}", e.name, e.only_owner, ro, e.payable_in_tokens,
-                e.inputs.iter().map(|i| format!("{}:{}", i.arg_name, i.type_names.abi)).collect::<Vec<_>>());
+    let a = parse_args();
+    match a.mode.as_str() {
+        "abi-dump" => {
+            let changed = abi_dump();
+            println!("Gen/Endpoints.lean {}", if changed { "rewritten" } else { "unchanged" });
         }
+        _ => panic!("not yet"),
     }
+    let _ = (BTreeMap::<u8, u8>::new(), HashMap::<u8, u8>::new());
 }
